@@ -8,12 +8,12 @@ ENGINE_ID = 19
 K_ELAB = 3            # elaborations of one instance
 LIMIT_S = 10          # CPU-time limit (ITIMER_PROF) for the constructor and for each elaboration + conversion
 WALL_S = 90           # wall-clock backstop (ITIMER_REAL) for the same steps: the machine may be loaded
-N = {"quick": 720, "thorough": 9000}
+N = {"quick": 720, "thorough": 10800}
 CLS = {"mux": 1, "csrdec": 2, "csrbridge": 3, "register": 4, "action": 5, "monitor": 6, "csrevent": 7,
        "wbcsr": 8, "wbdec": 9, "arbiter": 10, "sram": 11, "gpio": 12}
 RULE = ("idx 0, 3 = K2 probes (500 one-byte readable registers in one shared chunk / in 500 chunks), idx 1, 2 = submodule-name-collision probes (csr.Register field paths, csr.Bridge register names incl. \"mux\"); otherwise the class "
         "is idx mod 12 over csr.Multiplexer (mock registers, natural / packed / unaligned / padded layouts, span <= 2^12, "
-        "shadow_overlaps in {None,0,1,2,3,4,5,8}; thorough adds every placement of two registers in [0,8) x {None,0,1,2}), "
+        "shadow_overlaps in {None,0,1,2,3,4,5,8}; thorough adds EVERY placement of two read/write registers in [0,6) x shadow_overlaps {None,0,1,2}: 70 x 4 = 280 cases), "
         "csr.Decoder, csr.Bridge over csr.Builder (Cluster / Index scopes, real Registers), csr.Register (field trees, every "
         "action over unsigned/signed/int/range/enum/flag shapes), bare field actions, event.Monitor, csr.EventMonitor, "
         "WishboneCSRBridge, wishbone.Decoder (sparse, dense, K1-type dense-finer windows, addr_width 0), wishbone.Arbiter "
@@ -74,8 +74,9 @@ def maybe_bad(rnd, v, p=0.04):
 
 def gen_mux(rnd, tier, exh=None):
     if exh is not None:
-        # every placement of two registers inside [0, 8), every access pair kind, ov in {None,0,1,2}
-        cuts = [(a, b, c, d) for a in range(8) for b in range(a + 1, 9) for c in range(b, 8) for d in range(c + 1, 9)]
+        # every placement of two registers inside [0, 6) x ov in {None,0,1,2} (280 cases, both rw); after
+        # that the same enumeration again with other access pairs
+        cuts = [(a, b, c, d) for a in range(6) for b in range(a + 1, 7) for c in range(b, 6) for d in range(c + 1, 7)]
         a, b, c, d = cuts[exh % len(cuts)]
         ov = [None, 0, 1, 2][(exh // len(cuts)) % 4]
         acc = [(1, 1), (1, 0), (0, 1)]
@@ -373,7 +374,7 @@ def gen_case(seed, tier, idx):
     sub = "rand"
     if kind == "mux":
         if tier == "thorough" and (idx // nk) % 3 == 0:
-            cfg = gen_mux(rnd, tier, exh=idx // (3 * nk)); sub = "exh"
+            cfg = gen_mux(rnd, tier, exh=idx // (3 * nk) - 1); sub = "exh"     # idx 0 is a probe
         else:
             cfg = gen_mux(rnd, tier)
     elif kind == "csrdec":
